@@ -241,7 +241,7 @@ class ModbusRtuFramer(ModbusFramer):
                 else:
                     _logger.debug("Not a valid unit id - {}, "
                                   "ignoring!!".format(self._header['uid']))
-                    self.resetFrame()
+                    self.advanceFrame()
             else:
                 _logger.debug("Frame check failed, ignoring!!")
                 self.resetFrame()
